@@ -35,7 +35,7 @@ def draw_positive(rnd):
     if r < 0.3:
         return float(rnd.randint(1, 20))
     if r < 0.6:
-        return round(10 ** rnd.uniform(-3, 3), rnd.choice([2, 4, 6]))or 0.5
+        return round(10 ** rnd.uniform(-3, 3), rnd.choice([2, 4, 6])) or 0.5
     return 10 ** rnd.uniform(-4, 4)
 
 
